@@ -124,15 +124,39 @@ class TagViolation(ViolationFileHandler):
 
 # ------------------------------------------------------------------ request codec
 
-def dec(req):
-    assert str(req[0]) == 'lint'
-    d = {str(x[0]): x[1:] for x in req[1:]}
+def dec_call(items):
+    d = {str(x[0]): x[1:] for x in items}
     files = [(int(str(f[1])), str(f[2]), [int(str(b)) for b in f[3]]) for f in d['files']]
-    nh = int(str(d['nh'][0]))
     w = int(str(d['w'][0]))
     orders = [[int(str(i)) for i in o] for o in d.get('orders', [])]
     delays = [int(str(x)) for x in d.get('delays', [])]
-    return files, nh, w, orders, delays
+    return files, w, orders, delays
+
+
+def dec(req):
+    """request -> (calls [(files, w, delays)], nh, per-call observed orders); `lint` = a session of one call"""
+    op = str(req[0])
+    if op == 'lint':
+        files, w, orders, delays = dec_call(req[1:])
+        nh = int(str({str(x[0]): x[1:] for x in req[1:]}['nh'][0]))
+        return [(files, w, delays)], nh, [orders]
+    assert op == 'session'
+    nh = int(str(req[1][1]))
+    assert str(req[1][0]) == 'nh'
+    calls, orders = [], []
+    for c in req[2:]:
+        assert str(c[0]) == 'call'
+        files, w, o, delays = dec_call(c[1:])
+        calls.append((files, w, delays))
+        orders.append(o)
+    return calls, nh, orders
+
+
+def enc_session(calls, orders):
+    return [A('session'), [A('nh'), 3]] + [
+        [A('call'), [A('files')] + [[A('f'), i, A(k), list(fl)] for i, k, fl in files], [A('w'), w],
+         [A('orders')] + [list(o) for o in os_], [A('delays')] + list(delays)]
+        for (files, w, delays), os_ in zip(calls, orders)]
 
 
 def enc(files, w, orders, delays):
@@ -185,25 +209,41 @@ def rules_and_config(files, delays, log):
     return rules, config
 
 
-def _child_lint(tmp, files, w, delays):
-    """forked child: Linter + lint_files_glob + Reporter.output with three real handlers"""
+def _child_lint(tmp, calls):
+    """forked child: ONE Linter/Reporter with three real handlers, one lint_files_glob call per element of ``calls``
+    (files, workers, delays), then Reporter.output().  A single call lints ``src``, several calls lint ``src/c<j>``."""
     ll.logger.setLevel(logging.CRITICAL + 1)
     src = tmp / 'src'
-    write_sources(src, files)
     log = tmp / 'events.log'
     log.write_text('')
-    rules, config = rules_and_config(files, delays, log)
-    out = dict(error=None, count=None, raw=None, default=None, junit=None, viol=None, events=[])
+    if len(calls) == 1:
+        dirs = [src]
+        write_sources(src, calls[0][0])
+    else:
+        src.mkdir()
+        dirs = [src / f'c{j}' for j in range(len(calls))]
+        for d, (files, _, _) in zip(dirs, calls):
+            write_sources(d, files)
+    allfiles = [f for files, _, _ in calls for f in files]
+    alldelays = [d for _, _, delays in calls for d in delays]
+    rules, config = rules_and_config(allfiles, alldelays, log)
+    out = dict(error=None, count=None, counts=[], raw=None, snaps=[], default=None, junit=None, viol=None, events=[])
     try:
         handlers = [TagDefault(target=LineFile(tmp / 'default.txt').write, immediate_output=False, basedir=str(src)),
                     JunitXmlHandler(target=LazyTextfile(tmp / 'junit.xml').write, basedir=str(src)),
                     TagViolation(target=LazyTextfile(tmp / 'viol.yml').write, basedir=str(src), use_line_hashes=True)]
         linter = Linter(reporter=Reporter(handlers), rules=rules, config=config)
-        out['count'] = lint_files_glob(linter, str(src), ['*.F90'], max_workers=w)
-        raw = []
-        for handler, reports in linter.reporter.handlers_reports.items():
-            raw.append((type(handler).__name__, [reports[k] for k in range(len(reports))]))
-        out['raw'] = raw
+
+        def snapshot():
+            raw = []
+            for handler, reports in linter.reporter.handlers_reports.items():
+                raw.append((type(handler).__name__, [reports[k] for k in range(len(reports))]))
+            return raw
+        for d, (files, w, _) in zip(dirs, calls):
+            out['counts'].append(lint_files_glob(linter, str(d), ['*.F90'], max_workers=w))
+            out['snaps'].append([[str(e[0]) for e in l] for _, l in snapshot()])    # file names per handler after this call
+        out['count'] = sum(out['counts'])
+        out['raw'] = snapshot()
         linter.reporter.output()
         # no harness-side flush/close here: the files are read exactly as Reporter.output() left them (LazyTextfile.write
         # flushes since the fix: commit for class parallel-output-lost; before it they were empty at this point in the
@@ -320,20 +360,38 @@ def norm_msg(m):
     return m
 
 
-def real_lint(files, w, delays):
+def real_lint(calls):
+    """calls = [(files, workers, delays)] on one linter/reporter"""
     tmp = Path(tempfile.mkdtemp(prefix='verif_c42_'))
     try:
-        tag, res = isolated(lambda: _child_lint(tmp, files, w, delays), tmp / 'result.pkl')[:2]
+        tag, res = isolated(lambda: _child_lint(tmp, calls), tmp / 'result.pkl')[:2]
     finally:
         shutil.rmtree(tmp, ignore_errors=True)
     if tag != 'ok':
         return dict(error='harness:' + str(res))
     if res['error']:
         return res
-    return normalise(res)
+    res = normalise(res)
+    # per call: the entries each handler list gained for the files of that call, in list order (from the final lists)
+    res['call_orders'] = []
+    res['call_stats'] = []
+    for files, w, _ in calls:
+        ids = {f[0] for f in files}
+        res['call_orders'].append([[i for i in o if i in ids] for o in res['orders']])
+        ev = [e for e in res['events'] if fid(e[1]) in ids]
+        cur = top = 0
+        for e in ev:
+            if e[0] == 'b':
+                cur += 1
+                top = max(top, cur)
+            elif e[0] == 'e':
+                cur -= 1
+        res['call_stats'].append((top, len({e[2] for e in ev if e[0] == 'b'})))
+    return res
 
 
 def normalise(res):
+    res.setdefault('raw', None)
     res['n_default'] = sorted(norm_msg(l) for l in (res['default'] or '').splitlines() if l.strip())
     try:
         res['n_viol'] = yaml.safe_load(res['viol']) if res['viol'] else {}
@@ -394,7 +452,7 @@ class C42(Prop):
     model_modules = ['LokiModel.C42.Model']
     props_module = 'LokiModel.Props.C42'
     driver = 'Drivers/C42.lean'
-    theorems = ['C42_each_once', 'C42_handlers_perm', 'C42_per_file', 'C42_count', 'C42_schedule_independent',
+    theorems = ['C42_each_once', 'C42_handlers_perm', 'C42_per_file', 'C42_count', 'C42_workers_independent',
                 'C42_progress', 'C42_serial_run', 'C42_accept_sound', 'C42_disk']
     design_ref = 'DESIGN.md 4.G C42'
     findings_module = 'LokiModel.Findings.C42'
@@ -407,12 +465,14 @@ class C42(Prop):
         'C42_each_once (pending+running+done is always a permutation of the files; in a final state the completion order '
         'and the files appended to each handler are permutations of the file list), C42_handlers_perm (every final handler '
         'list is a permutation of files.map (handle o lint), i.e. of the serial result), C42_per_file (same for any '
-        'per-file selection), C42_count (checked_count = number of successful files), C42_schedule_independent (any two '
-        'final states for any two worker counts agree up to permutation), C42_progress (no deadlock), C42_serial_run (the '
+        'per-file selection), C42_count (checked_count = number of successful files), C42_workers_independent (any two sessions - sequences of '
+        'lint_files_glob calls with arbitrary worker counts on ONE reporter, the model call event keeps the accumulated lists as '
+        'Reporter.init_parallel does - that submit the same files end with equal counts and permutation-equal handler lists), C42_progress (no deadlock), C42_serial_run (the '
         'serial loop is a run ending with done = files), C42_accept_sound (a replayed event list is a run), C42_disk (what is on '
         'disk after Reporter.output is a permutation of the serial result for every w - full strength since the fix: commit for '
         'parallel-output-lost, the former behaviour is kept in Findings/C42.lean) - all at full strength by an inductive invariant. Tied to the code by trace validation: real lint runs with 1..8 workers on '
-        'generated file sets incl. unparsable files, completion order perturbed by a sleeping harness rule; the Lean driver '
+        'generated file sets incl. unparsable files and multi-call sessions on one Linter/Reporter (serial then parallel, parallel '
+        'then parallel, ...), completion order perturbed by a sleeping harness rule; the Lean driver '
         'must construct a run whose per-handler list orders equal the observed ones (FIFO starts, worker bound) and its '
         'per-file reports and count must equal the real ones; a Python oracle compares the normalised outputs of the three '
         'real handlers (text, JUnit XML, violations YAML), the raw handler lists and the count of each parallel run with a '
@@ -442,45 +502,71 @@ class C42(Prop):
         self._runs = {}
 
     @staticmethod
-    def key(files, w, delays, via=False):
-        return repr((files, w, delays, via))
+    def key(calls, via=False):
+        return repr((calls, via))
 
-    def run(self, files, w, delays, via=False):
-        """via=False: forked child, Linter + lint_files_glob; via=True: lint_files in a fresh interpreter that exits"""
-        k = self.key(files, w, delays, via)
+    def run(self, calls, via=False):
+        """via=False: forked child, one Linter + one lint_files_glob per call; via=True (single call only): lint_files in
+        a fresh interpreter that exits"""
+        k = self.key(calls, via)
         if k not in self._runs:
-            self._runs[k] = cli_lint(files, w, delays) if via else real_lint(files, w, delays)
+            self._runs[k] = cli_lint(*calls[0]) if via else real_lint(calls)
         return self._runs[k]
 
+    @staticmethod
+    def gen_files(rng, ids):
+        files = []
+        for i in ids:
+            if rng.random() < 0.18:
+                files.append((i, 'bad', []))
+            else:
+                files.append((i, 'ok', [int(rng.random() < 0.35) for _ in range(rng.randint(1, 4))]))
+        return files
+
+    @staticmethod
+    def gen_delays(rng, n):
+        style = rng.choice(['rand', 'rand', 'reverse', 'zero'])
+        if style == 'zero':
+            return [0] * n
+        if style == 'reverse':
+            return [8 * (n - k) for k in range(n)]
+        return [rng.choice([0, 0, 5, 10, 20, 40]) for _ in range(n)]
+
     def gen(self, rng, tier):
-        n_cases = {'quick': 8, 'thorough': 30, 'search': 20}.get(tier, 8)
+        n_cases = {'quick': 6, 'thorough': 24, 'search': 14}.get(tier, 6)
+        n_sessions = {'quick': 3, 'thorough': 12, 'search': 8}.get(tier, 3)
         for _ in range(n_cases):
             n = rng.randint(1, 10 if tier != 'quick' else 8)
             ids = sorted(rng.sample(range(30), n))
-            files = []
-            for i in ids:
-                if rng.random() < 0.18:
-                    files.append((i, 'bad', []))
-                else:
-                    files.append((i, 'ok', [int(rng.random() < 0.35) for _ in range(rng.randint(1, 4))]))
+            files = self.gen_files(rng, ids)
             w = rng.choice([1, 2, 2, 3, 4, 5, 8])
-            style = rng.choice(['rand', 'rand', 'reverse', 'zero'])
-            if style == 'zero':
-                delays = [0] * n
-            elif style == 'reverse':
-                delays = [8 * (n - k) for k in range(n)]
-            else:
-                delays = [rng.choice([0, 0, 5, 10, 20, 40]) for _ in range(n)]
-            run = real_lint(files, w, delays)
-            self._runs[self.key(files, w, delays)] = run
+            delays = self.gen_delays(rng, n)
+            calls = [(files, w, delays)]
+            run = real_lint(calls)
+            self._runs[self.key(calls)] = run
             orders = run.get('orders') or []
             req = enc(files, w, orders, delays)
             nontriv = w >= 2 and len(run.get('pids', [])) >= 2 and any(o != ids for o in orders)
-            yield Case(req, stream='w1' if w == 1 else 'parallel', nontrivial=nontriv, key=repr((files, w, delays)))
+            yield Case(req, stream='w1' if w == 1 else 'parallel', nontrivial=nontriv, key=repr(calls))
+        # sessions: several lint_files_glob calls with different worker counts on ONE linter/reporter, then output()
+        patterns = [[1, 2], [2, 1], [2, 3], [1, 3, 1], [2, 1, 2], [1, 1, 4], [3, 2]]
+        for k in range(n_sessions):
+            ws = patterns[k % len(patterns)] if k < len(patterns) else [rng.choice([1, 2, 3, 4]) for _ in range(rng.randint(2, 4))]
+            pool = rng.sample(range(40), 40)
+            calls = []
+            for w in ws:
+                n = rng.randint(1, 4)
+                ids = sorted(pool[:n])
+                pool = pool[n:]
+                calls.append((self.gen_files(rng, ids), w, self.gen_delays(rng, n)))
+            run = real_lint(calls)
+            self._runs[self.key(calls)] = run
+            orders = run.get('call_orders') or [[] for _ in calls]
+            yield Case(enc_session(calls, orders), stream='session', nontrivial=any(w >= 2 for w in ws), key=repr(calls))
 
     def impl(self, req):
-        files, nh, w, orders, delays = dec(req)
-        run = self.run(files, w, delays)
+        calls, nh, orders = dec(req)
+        run = self.run(calls)
         if run.get('error'):
             return [A('error'), A('lint-failed'), run['error']]
         return [A('ok'), [A('accepted'), True], [A('count'), run['count']],
@@ -488,21 +574,26 @@ class C42(Prop):
                 [A('same-multiset'), True]]
 
     def oracle(self, req):
-        files, nh, w, orders, delays = dec(req)
-        ids = [f[0] for f in files]
-        if not (files and w >= 1 and len(delays) == len(files) and len(set(ids)) == len(ids) and ids == sorted(ids)
-                and all(0 <= i < 100 for i in ids) and all(k in ('ok', 'bad') for _, k, _ in files)
-                and all(fl or k == 'bad' for _, k, fl in files)):
+        calls, nh, orders = dec(req)
+        allfiles = [f for files, _, _ in calls for f in files]
+        ids = sorted(f[0] for f in allfiles)
+        if not (calls and all(files and w >= 1 and len(delays) == len(files) and [f[0] for f in files] == sorted(f[0] for f in files)
+                              for files, w, delays in calls)
+                and len(set(ids)) == len(ids) and all(0 <= i < 100 for i in ids)
+                and all(k in ('ok', 'bad') for _, k, _ in allfiles) and all(fl or k == 'bad' for _, k, fl in allfiles)):
             raise ValueError('ill-formed request (not a generated input)')
-        par = self.run(files, w, delays)
+        ws = [w for _, w, _ in calls]
+        wdesc = f'{ws[0]} workers' if len(ws) == 1 else f'worker counts {ws} on one linter'
+        par = self.run(calls)
         if par.get('error'):
-            return [Failure(f'real lint run with {w} workers raised {par["error"]}')]
-        ser = self.run(files, 1, delays) if w != 1 else par
+            return [Failure(f'real lint run with {wdesc} raised {par["error"]}')]
+        sercalls = [(files, 1, delays) for files, _, delays in calls]
+        ser = self.run(sercalls) if any(w != 1 for w in ws) else par
         if ser.get('error'):
-            return [Failure(f'real serial lint run raised {ser["error"]}')]
+            return [Failure(f'real lint run with one worker raised {ser["error"]}')]
         fails = []
-        n_ok = sum(1 for _, k, _ in files if k == 'ok')
-        for what, r, ww in ((f'run with {w} workers', par, w), ('serial run', ser, 1)):
+        n_ok = sum(1 for _, k, _ in allfiles if k == 'ok')
+        for what, r, rws in ((f'run with {wdesc}', par, ws), ('run with one worker', ser, [1] * len(ws))):
             for h, o in zip(r['handler_names'], r['orders']):
                 if sorted(o) != ids:
                     fails.append(Failure(f'{what}: list of {h} has entries for files {o}, expected each of {ids} exactly once'))
@@ -510,21 +601,24 @@ class C42(Prop):
                 fails.append(Failure(f'{what}: JUnit XML has suites for {sorted(r["n_junit"])} (duplicates {r["junit_dup"]}), expected {ids}'))
             if r['count'] != n_ok:
                 fails.append(Failure(f'{what}: checked_count = {r["count"]}, {n_ok} files are parsable'))
-            if r['max_overlap'] > max(ww, 1) or len(r['pids']) > max(ww, 1):
-                fails.append(Failure(f'{what}: {r["max_overlap"]} checks overlapped in {len(r["pids"])} processes with {ww} workers'))
-        if ser['orders'] and any(o != ids for o in ser['orders']):
-            fails.append(Failure(f'serial run: handler lists {ser["orders"]} are not in file order {ids}'))
+            for j, ((top, npids), ww) in enumerate(zip(r['call_stats'], rws)):
+                if top > max(ww, 1) or npids > max(ww, 1):
+                    fails.append(Failure(f'{what}: call {j}: {top} checks overlapped in {npids} processes with {ww} workers'))
+        for j, ((files, _, _), co) in enumerate(zip(calls, ser['call_orders'])):
+            if any(o != [f[0] for f in files] for o in co):
+                fails.append(Failure(f'run with one worker: call {j}: handler lists {co} are not in file order'))
         for name in ('n_default', 'n_viol', 'n_junit', 'count'):
             if par[name] != ser[name]:
-                fails.append(Failure(f'{name[2:] if name != "count" else name} output of the run with {w} workers differs from the serial run: '
-                                     f'{str(par[name])[:300]} vs {str(ser[name])[:300]}'))
+                fails.append(Failure(f'{name[2:] if name != "count" else name} output of the run with {wdesc} differs from the run '
+                                     f'with one worker: {str(par[name])[:300]} vs {str(ser[name])[:300]}'))
         for k, h in enumerate(par['handler_names']):
             if par['n_raw'][k] != ser['n_raw'][k]:
-                fails.append(Failure(f'list of {h} of the run with {w} workers is not a permutation of the serial one'))
+                fails.append(Failure(f'list of {h} of the run with {wdesc} is not a permutation of the one-worker one'))
         # the public entry point lint_files in a stand-alone process (config keys junitxml_file / violations_file,
         # LazyTextfile targets): what is on disk after the process has exited
-        if self.wants_cli(files, w):
-            api = self.run(files, w, delays, True)
+        if len(calls) == 1 and self.wants_cli(calls[0][0], ws[0]):
+            files, w, delays = calls[0]
+            api = self.run(calls, True)
             if api.get('error'):
                 fails.append(Failure(f'lint_files with {w} workers in a stand-alone process failed: {api["error"]}'))
             else:
@@ -539,9 +633,10 @@ class C42(Prop):
                             + f'; the serial run wrote {len(ser[raw] or "")} characters ({str(ser[name])[:120]}...)',
                             None))
         # ground truth from the generator for the harness rule
-        exp = [[i, A('ok')] + [j for j, b in enumerate(fl) if b] if k == 'ok' else [i, A('error')] for i, k, fl in files]
+        exp = [[i, A('ok')] + [j for j, b in enumerate(fl) if b] if k == 'ok' else [i, A('error')]
+               for i, k, fl in sorted(allfiles)]
         if reports_of(par['junit_raw']) != exp:
-            fails.append(Failure(f'run with {w} workers reports {reports_of(par["junit_raw"])}, the files contain {exp}'))
+            fails.append(Failure(f'run with {wdesc} reports {reports_of(par["junit_raw"])}, the files contain {exp}'))
         return fails
 
     @staticmethod
